@@ -219,8 +219,104 @@ def case_nd(ctx, index, rng: random.Random):
              cls=f"{d}d/{kind}", sample={"shape": shape, "index": repr(ix), "result_shape": None if r is None or not hasattr(r, "shape") else list(r.shape)})
 
 
+def case_history(ctx, index, rng: random.Random):
+    """The same histogram is indexed, changed (adaptive growth to either side, in-place merge, scaling, dtype change, more
+    fills) and indexed again: every selection must reflect the state at the time of the call (no stale cached views)."""
+    import physt
+
+    rec = ctx.rec
+    d = rng.choice([1, 1, 2])
+    w = rng.choice([0.5, 1.0, 2.5])
+    adaptive = rng.random() < 0.7
+    n = rng.randint(3, 20)
+    if d == 1:
+        data = np.array([rng.uniform(-4, 4) for _ in range(n)])
+        h = physt.h1(data, "fixed_width", bin_width=w, adaptive=adaptive) if adaptive or rng.random() < 0.5 else physt.h1(data, rng.randint(2, 8))
+    else:
+        rows = np.array([[rng.uniform(-4, 4), rng.uniform(0, 6)] for _ in range(n)])
+        h = physt.h(rows, "fixed_width", bin_width=[w, 1.0], adaptive=adaptive, axis_names=["a", "b"])
+    log = []
+
+    def index_once():
+        k = h.shape[0]
+        try:
+            with warnings.catch_warnings():
+                warnings.simplefilter("ignore")
+                if d == 1:
+                    r = rng.random()
+                    if r < 0.5 and k >= 2:
+                        a = rng.randint(0, k - 2)
+                        ix = slice(a, rng.randint(a + 1, k))
+                    elif r < 0.7:
+                        ix = np.array([rng.random() < 0.6 for _ in range(k)], dtype=bool)
+                        if not ix.any():
+                            ix[0] = True
+                    elif r < 0.85:
+                        ix = np.array(sorted(rng.sample(range(k), rng.randint(1, k))))
+                    else:
+                        ix = rng.randint(-k, k - 1)
+                    res = h[ix]
+                else:
+                    ix = (rng.randint(0, k - 1), slice(None)) if rng.random() < 0.5 else (slice(0, max(1, k - 1)), rng.randint(0, h.shape[1] - 1))
+                    res = h[ix]
+                cross_check_result(rec, res, "h[...] in a history", ix)
+                log.append(f"index {ix!r}")
+                # using the selection afterwards (also growing it) must never reach back into the source
+                from ..world import is_hist
+
+                if is_hist(res) and res is not h and rng.random() < 0.5:
+                    with attach.quiet():
+                        before = snap.snapshot(h)
+                    try:
+                        rb = [np.asarray(res.bins)] if res.ndim == 1 else [np.asarray(b) for b in res.bins]
+                        if all(len(b) for b in rb):
+                            far = [b[-1, 1] + 3.3 * w if res.is_adaptive() else (b[0, 0] + b[-1, 1]) / 2 for b in rb]
+                            res.fill(far[0] if res.ndim == 1 else np.array(far))
+                            log.append("fill selection")
+                    except Exception:
+                        pass
+                    with attach.quiet():
+                        dd = snap.diff(before, snap.snapshot(h))
+                        probs = snap.wellformed_problems(h)
+                        if dd or probs:
+                            rec.fail(prop="C11", monitor="C11.index.post", op="use of a selection", symptom="filling a selection modified / corrupted the source histogram",
+                                     diff=sorted(dd) or ["wellformed"], detail={"problems": probs, "log": log[-6:]})
+        except Exception as e:
+            log.append(f"index raised {type(e).__name__}")
+
+    for step in range(rng.randint(3, 7)):
+        index_once()
+        op = rng.choice(["grow_left", "grow_right", "fill", "merge", "scale", "dtype", "read_edges"])
+        try:
+            with warnings.catch_warnings():
+                warnings.simplefilter("ignore")
+                if op in ("grow_left", "grow_right") and h.is_adaptive():
+                    bins = [np.asarray(h.bins)] if d == 1 else [np.asarray(b) for b in h.bins]
+                    v = [(b[0, 0] - rng.uniform(0.2, 4) * w) if op == "grow_left" else (b[-1, 1] + rng.uniform(0.2, 4) * w) for b in bins]
+                    h.fill(v[0] if d == 1 else np.array(v))
+                elif op == "fill":
+                    bins = [np.asarray(h.bins)] if d == 1 else [np.asarray(b) for b in h.bins]
+                    v = [rng.uniform(b[0, 0], b[-1, 1]) for b in bins]
+                    h.fill(v[0] if d == 1 else np.array(v), rng.choice([1, 2.5]))
+                elif op == "merge" and min(h.shape) >= 2:
+                    h.merge_bins(2, inplace=True)
+                elif op == "scale":
+                    h *= 2
+                elif op == "dtype":
+                    h.set_dtype("float64")
+                elif op == "read_edges":
+                    _ = h.numpy_bins if d == 1 else h.edges
+            log.append(op)
+        except Exception as e:
+            log.append(f"{op} raised {type(e).__name__}")
+    index_once()
+    rec.case(["history", d, adaptive, log], any(x.startswith("grow") for x in log) or "merge" in log, cls=f"history/{d}d/{'adaptive' if adaptive else 'fixed'}",
+             sample={"log": log})
+
+
 def run(ctx):
     attach_monitors()
+    ctx.run_cases(ctx.scale(250, 2000), case_history, salt="history")
     ctx.run_cases(6, enumerate_slices, salt="enum")
     ctx.run_cases(ctx.scale(500, 4000), case_1d, salt="1d")
     ctx.run_cases(ctx.scale(500, 4000), case_nd, salt="nd")
